@@ -70,7 +70,7 @@ _orig_step = Environment.step
 def _event_init(self, time, asset_id, action, event_type, message=''):
     _orig_event_init(self, time, asset_id, action, event_type, message)
     r = CTX
-    if r is None or not r.keyed_weights:
+    if r is None or not r.keyed_weights or r.in_bystander:
         return
     try:
         t = time * TICK
@@ -121,9 +121,55 @@ def _run(self, simulation_duration, trace=False):
     return _orig_run(self, simulation_duration, trace)
 
 
+# ---- bystander environments ------------------------------------------------------------------------------------
+# Other Environment objects live next to the one under test (a second model in the same process, a copy kept for
+# comparison).  Whenever the environment under test pauses, resumes or cancels the events of an asset, the SAME
+# operation with an EQUAL id is first performed on every bystander (each holds events of its own for that id), and
+# after a pause one more bystander is constructed.  None of this may be visible in the environment under test:
+# instances share no state.  (Nothing is printed; a library that shares state shows a different event stream.)
+_orig_pause = Environment.pause_matching_events
+_orig_unpause = Environment.unpause_matching_events
+_orig_cancel = Environment.cancel_matching_events
+
+
+def _nothing():
+    pass
+
+
+def _bystander_op(orig, after_pause=False):
+    @functools.wraps(orig)
+    def f(self, asset_id=None):
+        r = CTX
+        if r is None or self is not getattr(r, 'env', None) or r.in_bystander or asset_id is None \
+                or not isinstance(asset_id, int):
+            return orig(self, asset_id)
+        r.in_bystander = True
+        try:
+            for b in r.bystanders:
+                if after_pause:
+                    b.schedule_event(b.now + 1, Num(asset_id), _nothing)
+                orig(b, Num(asset_id))
+        except Exception as e:  # pragma: no cover
+            r.out.append(f'harness-error bystander {type(e).__name__} {e}')
+        finally:
+            r.in_bystander = False
+        res = orig(self, asset_id)
+        if after_pause:
+            r.in_bystander = True
+            try:
+                r.bystanders = r.bystanders[-2:] + [Environment()]
+            finally:
+                r.in_bystander = False
+        return res
+    return f
+
+
 Event.__init__ = _event_init
 Environment.step = _step
 Environment.run = _run
+Environment.pause_matching_events = _bystander_op(_orig_pause, after_pause=True)
+Environment.unpause_matching_events = _bystander_op(_orig_unpause)
+Environment.cancel_matching_events = _bystander_op(_orig_cancel)
 # ReservedResources.__del__ prints and dereferences a possibly missing env: silence it.
 resource_manager.ReservedResources.__del__ = lambda self: None
 
@@ -159,6 +205,9 @@ class Runner:
         self.aborted = False
         self.system = System()
         self.env = self.system.env
+        self.in_bystander = True
+        self.bystanders = [Environment('bystander')]
+        self.in_bystander = False
         self.id2idx = {}
         self.eids = {}
         self.keep = []
